@@ -170,12 +170,23 @@ class Run:
                     return f"{n}.post.rel"
                 return f"{n}.safety"
             failed = sorted({cname(f) for f in r.failures})
-            own = [c for c in failed if c.startswith(n + ".")]
             rep["failed_clauses"] = failed
             rep["verifier_output"] = [f"{f.kind} @ {f.detail}" for f in r.failures][:20]
             self.obligations += len(clauses)
             self.discharged += max(0, len(clauses) - len(set(failed)))
-            self.candidate_violation(n, failed, r)
+            policy = P.PROPS[self.prop].get("verus_policy", "all")
+            if policy == "safety":
+                # this property is about panics / overflow / termination / the Ok-Err mapping: a failed FUNCTIONAL clause of a
+                # unit in its closure is another property's business and is reported there
+                relevant = [c for c in failed if c.endswith(".safety") or c.endswith(".decreases") or ".pre." in c or c in P.PROPS[self.prop].get("own_clauses", [])]
+                rep["note"] = "functional clauses failed; not an obligation of this property" if not relevant else ""
+                if relevant:
+                    self.candidate_violation(n, relevant, r)
+            elif policy == "undecided":
+                # parametricity claim: a unit that no longer verifies is undecided for this property, not a violation of it
+                self.undecided.append(f"{n}: no longer verifies ({', '.join(failed)[:160]}) - reported as a violation by the properties it serves")
+            else:
+                self.candidate_violation(n, failed, r)
         else:
             rep["reason"] = r.reason
             self.undecided.append(f"{n}: {r.reason}")
